@@ -15,7 +15,7 @@ META = {
     "level": "model_checking",
     "engine": "E2 state (+E1 seq at policy level)",
     "rule": ("explicit-state BFS over histories allow | record_success | record_failure(K in "
-             "{T,S,R,U}) | record_cancel | tick(d in {1, W-1, W, W+1, Trec} ticks) on the real "
+             "{T,S,R,U}) | record_cancel | tick(d in {1, W-1, W, W+1, Trec} ticks; W +- 0.4 ms in the off-lattice configurations) on the real "
              "CircuitBreaker, for every configuration of a lattice (threshold x window x recovery "
              "x class thresholds x trip_on), deduplicated on the time-translated implementation "
              "state plus reference state; every transition compared with a list-of-failures "
@@ -49,6 +49,11 @@ def configs(tier):
     for thr, ct in [(2, {}), (3, {}), (3, {"R": 2})]:
         out.append({"threshold": thr, "window": 2, "recovery": 2, "class_thresholds": ct,
                     "trip_on": ["T", "U"], "t0": -3})
+    # instants off the tick lattice: a failure 0.4 ms older than the window does not count, one
+    # 0.4 ms younger does
+    for thr, W, ct in [(2, 2, {}), (2, 4, {"R": 2}), (3, 4, {})]:
+        out.append({"threshold": thr, "window": W, "recovery": 3, "class_thresholds": ct,
+                    "trip_on": None, "frac_tick": True})
     # trip_on handed over as a one-shot iterable (generator / map / iter), which set() accepts
     for thr, ct in [(2, {}), (2, {"R": 1}), (1, {})]:
         out.append({"threshold": thr, "window": 4, "recovery": 2, "class_thresholds": ct,
